@@ -49,6 +49,7 @@ def show_pat(t):
 
 def op_line(op):
     if op[0] == 'ematch': return 'ematch ' + show_pat(op[1])
+    if op[0] == 'mmatch': return 'mmatch ' + ' ; '.join('%s | %s' % (v, show_pat(p)) for v, p in op[1])
     if op[0] == 'extract': return 'extract %s %s' % (op[2], show_term(op[1]))
     if op[0] == 'rewrite': return 'rewrite ' + ' ; '.join('%s | %s | %s' % (r[1], show_pat(r[2]), show_pat(r[3])) for r in op[1])
     return op[0] + ' ' + ' '.join(show_term(x) if isinstance(x, (tuple, list)) else str(x) for x in op[1:])
@@ -69,7 +70,7 @@ def run_cases(text, profile='release', timeout=600):
         if 'case' in r: out[r['case']] = r
     return out
 
-_CMP_KEYS = ('eq', 'live', 'nodes', 'progress', 'classes', 'union_ret', 'readd', 'probe', 'ematch', 'rewrite_ret', 'extract')
+_CMP_KEYS = ('eq', 'live', 'nodes', 'progress', 'classes', 'union_ret', 'readd', 'probe', 'ematch', 'rewrite_ret', 'extract', 'mmatch')
 def _norm_step(s):
     """class ids are compared up to renaming (which id survives a merge may depend on the hash iteration order of the worklist,
     which the native build and the model need not share): ids -> index of the first handle in that class"""
